@@ -12,15 +12,15 @@ import re
 VERIF = os.path.dirname(os.path.dirname(os.path.abspath(__file__)))
 
 NOTES = {
-    'C01': 'Sub-checks `trees` (all decorations of every shape, metadata variant rotating, 10 option pairs on the wide family / 4 on the larger ones in quick), `meta` (7 metadata variants x 10 options on a small family) and `fixed` (every accepted string, accepted token sequence and a family of multi-key comment lines: fixed point of parse-then-format). The wide alphabet was extended with `""`, a string starting with an escape and an aligned empty-string concept after a seeded change to the STRING pattern was missed; symbols containing `#` (`k#1`, `x#y`) after a second-wave change that cut symbols at `#`. Wave 4: a string atom and a metadata value containing a TAB / NBSP.',
+    'C01': 'Sub-checks `trees` (all decorations of every shape, metadata variant rotating, 10 option pairs on the wide family / 4 on the larger ones in quick), `meta` (7 metadata variants x 10 options on a small family) and `fixed` (every accepted string, accepted token sequence and a family of multi-key comment lines: fixed point of parse-then-format). The wide alphabet was extended with `""`, a string starting with an escape and an aligned empty-string concept after a seeded change to the STRING pattern was missed; symbols containing `#` (`k#1`, `x#y`) after a second-wave change that cut symbols at `#`. Wave 4: a string atom and a metadata value containing a TAB / NBSP. The `meta` family also goes through `PENMANCodec.format/parse`, `penman.iterparse` and `PENMANCodec.iterparse`.',
     'C02': 'As designed; the precondition (well-formedness under the model, canonical inversion form) is decided by `pmc.ref.interp.well_formed_tree`, the oracle is tree equality plus `encode(decode(s))` text equality. Models: DEFAULT, NOOP, AMR, MINI and the 16 role tables of the TINY family. The shared alphabets now contain a role alignment equal to a target alignment (`:r~e.3 a~e.3`, `:r~1 "s"~1`) and a constant spelled like a later variable (`c`) - second-wave changes (de-duplicated markers, a variable set leaking between decodes) needed them. Wave 4: the text-level round trip carries three metadata keys that are not in alphabetical order, written by hand (not by the formatter).',
-    'C03': 'Sub-checks `plain` (GRAPH(V,E) over four pools, all permutations / adjacent-2, every top) and `marked` (decoded trees, permuted, every top). The decoded side is compared *without* deinversion (a decoded graph must already be deinverted) - the first version normalised both sides and missed a seeded change that left forward inverted references un-deinverted. NOOP is not a model of this property (it cannot restore a triple written from its target side). Every `marked` case is also run on a `copy.deepcopy` of the graph (markers equal to, but not identical with, the POP singleton - what pickling, `|` and `-` produce).',
+    'C03': 'Sub-checks `plain` (GRAPH(V,E) over four pools, all permutations / adjacent-2, every top) and `marked` (decoded trees, permuted, every top). The decoded side is compared *without* deinversion (a decoded graph must already be deinverted) - the first version normalised both sides and missed a seeded change that left forward inverted references un-deinverted. NOOP is not a model of this property (it cannot restore a triple written from its target side). Every `marked` case is also run on a `copy.deepcopy` of the graph (markers equal to, but not identical with, the POP singleton - what pickling, `|` and `-` produce). Wave 4: `plain` graphs whose requested top is the source of their first triple are also encoded with no top at all (implicit top).',
     'C04': 'As designed, plus an end-to-end `text` sub-check (format a tree containing U+2028/U+0085/VT/FF/FS inside symbols, roles and strings, decode the text, compare with the reference reading of the *text*) added after a seeded `str.splitlines` regression was invisible to the tree-level check. Wave 4: an `entry` sub-check decodes every tree of a model-role family through eight public entry points (decode, codec method, loads, iterdecode x2, load from a stream / an open file / a file name) and compares each with the reference reading.',
     'C05': 'Explicit-state search: R(key), A(key, attributes_first), T(top) from the decoding and the marker-less twin of every well-formed tree; 8 keys incl. the tool\'s `inverted-last` and three scripted random sources; every rearranged branch list is compared with the stable reference key order. Second-wave additions: a deep-copied initial variant, concept-less nodes in the depth-2 family, and "priming" calls of the other models\' sort keys on the same roles before each case (a class-level memo shared between models was invisible otherwise). Wave 4: two more initial variants - a hand-built graph with an implicit top (this found F25) and a graph that states one attribute twice (both copies are content).',
     'C06': 'Sub-checks `product`, `edits` (BFS, states hashed on (order, marker lists)), `surplus` (1-5 extra POPs on each triple in turn; added after a seeded change needing >= 3 surplus POPs was missed) and `totality`. Second-wave additions: every edit state is also encoded from a deep copy, and an AMR family (`:consist-of`, `:consist-of-of`) for the edits.',
     'C07': 'Sub-checks `strings`, `strings_block` (rotating block of the next length), `tokens` / `ttokens` (token DFS with dead-prefix pruning, one shard per 3-token prefix), `gmacro` / `tmacro` (macro tokens: whole nodes / whole triples, so that 3-triple conjunctions and multi-graph streams are reached), `deep`, `long` (unterminated quotes, escapes, symbols, comments of length 40/400/4000 - this is what exposes a backtracking-regex hang) and `unicode`. Wave 4: a `holes` sub-check fills one hole in six templates (after a concept, a role, a string, a symbol, a triple source, a triple target) with every string of length <= 4 over 14 characters of the token micro-grammars (`~ ^ _ [ \\ ] ` . , : -` and letters/digits).',
     'C08': 'As designed (three containers, two patterns). `Token.line` is deliberately not asserted (not part of the statement).',
-    'C09': 'Complete product over a fixed 8-graph corpus (two graphs share their first metadata line) and 7 serialisations incl. joining with nothing, as the statement says ("with none"); streams are created with universal newlines like text-mode files. Wave 4: dump/load by file name also with a non-default encoding (UTF-16).',
+    'C09': 'Complete product over a fixed 8-graph corpus (two graphs share their first metadata line) and 7 serialisations incl. joining with nothing, as the statement says ("with none"); streams are created with universal newlines like text-mode files. Wave 4: dump/load by file name also with a non-default encoding (UTF-16). File names are also given as `pathlib.Path`.',
     'C10': 'Reference relabelling from the docstring; three variable-name variants per tree (identity, a<->b swapped, names colliding with generated names) and alignment prefixes spelled like the variable (`a~a.3`) were added after two seeded changes were missed by the a,b,c-in-order naming of the family; a fourth variant uses names that do not start with a letter (`_2`, `_`, `1`).',
     'C11': 'Sub-checks `inverse` and `nocollapse`; table ambiguity and input collapsibility are decided by reference predicates written from the statement. Role and target alignments can now be equal (`:polarity~e.1 k~e.1`), and `nocollapse` also runs with a two-character top variable. Wave 4: a re-topped initial variant (the top is not the source of the first triple); a look-alike node whose collapse would put a constant in source position is not collapsible.',
     'C12': 'BFS over programs from five initial variants; a family of 4-node chains of reified nodes was added after a seeded change (surplus POPs after two nested dereifications) needed it.',
@@ -30,7 +30,7 @@ NOTES = {
     'C16': 'Sub-checks `errors`, `decoded`, `tool` (in-process `main()`; 22 runs replayed in a real sub-process). Wave 4: the compliant corpus graph uses a model-defined `-of` role and an inverted re-entrancy; `--check` is also run together with `--triples`.',
     'C17': 'Sub-checks `purity`, `history`, `streams`, `processes`, `hashseeds`; the baseline of `history` and `hashseeds` is computed by a fresh sub-process (`pmc/props/c17_battery.py`). The battery has 46 calls (incl. `Model.reify/dereify/invert/deinvert/canonicalize` and the sort keys of two models) x 16 arguments (incl. a graph with an implicit top and one with the ambiguous `include-91`). Wave 4: in the `history` sub-check the client uses every documented in-place operation on the results of earlier calls; the command-line runs include combined sort keys in both orders.',
     'C18': 'Sub-checks `quote` and `atoms`; atom texts are restricted to what the Atom production can yield (a lone `"` or a text with blanks is not an atom). Wave 4: a combining mark (strings that are not in NFC).',
-    'C19': 'Sub-checks `single`, `lists`, `decoded`; spacing variants are always compared with the reference recogniser and with the original list whenever the pieces cannot glue into other symbols (e.g. `a,^y`). Wave 4: a role given without its colon must come back with it.',
+    'C19': 'Sub-checks `single`, `lists`, `decoded`; spacing variants are always compared with the reference recogniser and with the original list whenever the pieces cannot glue into other symbols (e.g. `a,^y`). Wave 4: a role given without its colon must come back with it. Decoded triple lists also go through `PENMANCodec.format_triples/parse_triples`.',
     'C20': 'Sub-checks `options` (2688 option sets x 5 models x 6 streams), `formats`, `channels`, `subprocess`. The "decodes to the same graphs" clause is asserted only for streams that are well-formed under the selected model (the statement says "well-formed input"). Wave 4: combined rearrange keys in non-table order, `--indent 0 --compact`, roles with five and six stacked inversions (2 688 option sets, 10 formatting options).',
 }
 
@@ -82,6 +82,18 @@ def mutants_summary():
     return '\n'.join(rows)
 
 
+def reverts_table():
+    p = os.path.join(VERIF, 'mutants', 'REVERTS.json')
+    if not os.path.exists(p):
+        return ''
+    r = json.load(open(p))
+    rows = ['| property | repair reverted | result of the quick check | first violation |', '|---|---|---|---|']
+    for k in sorted(r):
+        v = r[k]
+        rows.append(f'| {v["property"]} | `{v["commit"]}` {v["what"][:90].replace("|", "/")} | {v["status"]} | {v.get("first_violation", "")[:140].replace("|", "/")} |')
+    return '\n'.join(rows)
+
+
 def main():
     p = os.path.join(VERIF, 'DESIGN.md')
     s = open(p, encoding='utf-8').read()
@@ -99,6 +111,9 @@ def main():
     a, b = '<!-- SEEDED -->', '<!-- /SEEDED -->'
     if a in s:
         s = re.sub(re.escape(a) + '.*?' + re.escape(b), lambda m: a + '\n' + seeded_table() + '\n\n' + mutants_summary() + '\n' + b, s, flags=re.S)
+    a, b = '<!-- REVERTS -->', '<!-- /REVERTS -->'
+    if a in s:
+        s = re.sub(re.escape(a) + '.*?' + re.escape(b), lambda m: a + '\n' + reverts_table() + '\n' + b, s, flags=re.S)
     open(p, 'w', encoding='utf-8').write(s)
 
 
